@@ -15,6 +15,10 @@ CLAIMED = {
    text="Exhaustive over the program: for each of the 377 registrations the set of LintStatus constants reachable from the registered type's Execute (all return paths, helpers, pointer-passed status cells) is computed on SSA and intersected with what the name prefix forbids; any lint/status/function triple not in known_findings.txt fails, an unbounded set fails as undecided. Not 'proof' only because nine genuine violations exist on the pinned tree and are listed as known findings.",
    note=TRUST+"Statuses are assumed to be produced only by the SSA forms the analysis models; every other form is reported undecided, never assumed.",
    technique="interprocedural status-flow (dataflow over go/ssa) + registration census", ref="§3 C06"),
+ "C12": dict(level="proof",
+   text="Complete census on every run: every lint type in v3/lints implements a lint interface iff exactly one Register* call (resolved by callee object) constructs it, executed on every path of a func init of a package in zlint's import closure with no file excluded from the build; all metadata obligations (constant lower-case e_/w_/n_ name unique across the three kinds, description, declared source, constructor, dates folding to UTC instants with effective < ineffective) and the registry-coherence obligations (three register siblings: guards dominate updates, all five tables updated on the success path, names re-sorted; read API returns the matching table; Names/Sources merge all kinds; Register* panic on error) are discharged one by one; obligations == discharged or the check fails.",
+   note=TRUST+"Go runs every init of every linked package once; sort.Strings sorts. Default build configuration only in the quick tier.",
+   technique="program census over go/types + dominance rules on go/ssa (registration sites, registry siblings)", ref="§3 C12"),
 }
 
 NOT_YET = "check not built yet in this session (see DESIGN.md §3 for the planned static rule)"
